@@ -306,6 +306,71 @@ pub fn run(args: &[String]) {
         case.tags.dedup();
         case.emit();
     }
+    // a client that sends far more than the socket buffers hold before the server accepts: its sends must wait, not fail,
+    // and accept + the returned receiver must yield everything in order
+    for b in 0..(if thorough { 12 } else { 3 }) {
+        let mut case = Case::new(format!("oneshot-bulk-{}", b));
+        let (server, name) = IpcOneShotServer::<Vec<u8>>::new().unwrap();
+        let sizes: Vec<usize> = match b % 3 {
+            0 => vec![7, 210_000, 1_000_000, 7],
+            1 => (0..20).map(|k| if k % 4 == 1 { 60_000 } else { 100 + k * 3000 }).collect(),
+            _ => vec![300_000, 300_000, 5, 300_000],
+        };
+        let sz = sizes.clone();
+        let client = std::thread::spawn(move || {
+            let tx: IpcSender<Vec<u8>> = IpcSender::connect(name).unwrap();
+            let mut errs = Vec::new();
+            for (k, n) in sz.iter().enumerate() {
+                let data: Vec<u8> = (0..*n).map(|i| (i as u8).wrapping_mul(13).wrapping_add(k as u8)).collect();
+                if let Err(e) = tx.send(data) {
+                    errs.push(format!("send #{} ({} bytes) failed: {:?}", k, n, e));
+                }
+            }
+            errs
+        });
+        std::thread::sleep(std::time::Duration::from_millis(if b % 2 == 0 { 30 } else { 0 }));
+        let got = crate::util::with_watchdog(20, move || {
+            let mut out: Vec<Vec<u8>> = Vec::new();
+            match server.accept() {
+                Ok((rx, first)) => {
+                    out.push(first);
+                    loop {
+                        match rx.recv() {
+                            Ok(d) => out.push(d),
+                            Err(_) => break,
+                        }
+                    }
+                },
+                Err(_) => {},
+            }
+            out
+        });
+        match got {
+            None => case.fail("accept / receive of a bulk client did not finish within 20 s".into()),
+            Some(out) => {
+                let lens: Vec<usize> = out.iter().map(|d| d.len()).collect();
+                if lens != sizes {
+                    case.fail(format!("client sent messages of sizes {:?} before accept; accept + receiver yielded {:?}", sizes, lens));
+                } else {
+                    for (k, d) in out.iter().enumerate() {
+                        if d.iter().enumerate().any(|(i, x)| *x != (i as u8).wrapping_mul(13).wrapping_add(k as u8)) {
+                            case.fail(format!("message #{} arrived with different contents", k));
+                        }
+                    }
+                }
+            },
+        }
+        if case.oracle.is_none() {
+            for e in client.join().unwrap() {
+                case.fail(e);
+            }
+        }
+        case.pair("noop".into(), "ok".into());
+        case.nontrivial = true;
+        case.key = format!("bulk:{}", b);
+        case.tags.push("client=bulk_before_accept".into());
+        case.emit();
+    }
     // names: many consecutive servers, then many alive at once
     {
         let mut case = Case::new("oneshot-names".into());
